@@ -6,6 +6,7 @@ import Gene.Getter
 import Gene.Spec.Admit
 import Gene.Spec.Scan
 import Gene.RelCheck
+import Gene.ScanResultApi
 /-! Line-protocol driver: one JSON object per input line, one JSON answer per line.
     Runs the model's executable definitions (the very ones the theorems are about) and the spec's. -/
 open Lean Gene
@@ -218,6 +219,27 @@ def jRule (j : Json) : E Rule := do
 /-! canonical output -/
 def sortStrs (l : List Str) : List Str := (l.map String.ofList).toArray.qsort (· < ·) |>.toList |>.eraseDups |>.map String.toList
 
+def asciiLowerStr (s : Str) : Str :=
+  s.map (fun c => if 'A'.toNat ≤ c.toNat ∧ c.toNat ≤ 'Z'.toNat then Char.ofNat (c.toNat + 32) else c)
+
+/-- the result seen through its public methods, its derived getter and its serialized form (`Gene.ScanResultApi`) -/
+def srQueries (sr : ScanResult) : Json :=
+  let g (p : List String) : Json := match sr.get (p.map String.toList) with
+    | none => Json.null
+    | some v => valueJson v
+  Json.mkObj [
+    ("det", Json.bool sr.isDetection), ("empty", Json.bool sr.isEmpty), ("only_filter", Json.bool sr.isOnlyFilter),
+    ("is_filtered", Json.bool sr.isFiltered),
+    ("tags_all", Json.bool (sr.tags.all sr.containsTag)), ("tag_absent", Json.bool (sr.containsTag "\x00nope".toList)),
+    ("actions_all", Json.bool (sr.actions.all sr.containsAction)), ("action_absent", Json.bool (sr.containsAction "\x00nope".toList)),
+    ("attack_lower_all", Json.bool (sr.attack.all (fun a => sr.containsAttackId (asciiLowerStr a)))),
+    ("attack_absent", Json.bool (sr.containsAttackId "t0".toList)),
+    ("get", Json.arr #[g [], g ["filtered"], g ["severity"], g ["rules"], g ["tags"], g ["attack"], g ["actions"],
+                       g ["filtered", "x"], g ["severity", ""], g ["nope"], g [""]]),
+    ("ser_keys", Json.arr (sr.serKeys.map Json.str).toArray),
+    ("rt_filtered", match sr.roundTrip with | none => Json.null | some b => Json.bool b.filtered),
+    ("rt_same", match sr.roundTrip with | none => Json.null | some _ => Json.bool true), ("clone_eq", Json.bool true)]
+
 def srJson : Option ScanResult → Json
   | none => Json.null
   | some sr => Json.mkObj [
@@ -226,7 +248,8 @@ def srJson : Option ScanResult → Json
       ("attack", Json.arr ((sortStrs sr.attack).map sJ).toArray),
       ("actions", Json.arr ((sortStrs sr.actions).map sJ).toArray),
       ("filtered", Json.bool sr.filtered),
-      ("severity", Json.num (Int.ofNat sr.severity))]
+      ("severity", Json.num (Int.ofNat sr.severity)),
+      ("q", srQueries sr)]
 
 def errKindJ : EvalErr → Json
   | .ruleNotFound => "RuleNotFound"
